@@ -97,13 +97,12 @@ def feasible(pc, timeout_ms=1500) -> bool:
     if key in _feas_cache:
         return _feas_cache[key]
     t0 = time.time()
-    s = z3.Solver()
-    s.set("timeout", timeout_ms)
-    s.add(conj)
-    r = s.check()
+    from .solve import check_sat
+
+    r, _m, _b, _dt, _q = check_sat([conj], z3_ms=400, cvc5_ms=4000)
     STATS["feas_queries"] += 1
     STATS["feas_time"] += time.time() - t0
-    res = r != z3.unsat
+    res = r != "unsat"
     _feas_cache[key] = res
     return res
 
